@@ -16,9 +16,17 @@ Parts (all driven through the real sleap-nn functions / Dataset classes):
           (angle, tx, ty, scale) in {low, mid, high}^4 of the ranges the function was called with
   nomove  apply_intensity_augmentation (each of the 4 augmentations and all together, p=1), random erasing
           (rectangle forced to the 9 corner/centre positions), mixup; p=0 identity
+  cropsize find_instance_crop_size on in-memory labels: multiple of the max stride, covers the largest animal
+          (x input scale + padding), >= min_crop_size, minimal; leaves the labels untouched
   ds      BottomUp / SingleInstance / Centroid / CenteredInstance Dataset.__getitem__ on PNG-embedded .pkg.slp
           label files (gray and RGB sources, is_rgb on/off) x (max_h,max_w) x scale x max_stride x crop size x
           anchor, without augmentation, with the 81 forced affine corners, and with intensity augmentation
+
+Known findings carry *predictive* signatures (see k4_halfpixel_resize / k4_under_kornia_affine): a mismatch is only
+attributed to them when the measured error VECTOR of every mismatching keypoint is within 0.15 px per axis of what
+the finding's arithmetic predicts for that keypoint's source coordinate.  (DESIGN section 3 writes the K4 offset as
+|0.5(s_act-1) + x(s_nom-s_act)|; measured on the real code the two terms have opposite relative sign:
+keypoint - content = x(s_nom - s_act) + 0.5(1 - s_act) per axis and stage, e.g. 23x23 at scale 1/4, x = 20: +1.04 px.)
 """
 from __future__ import annotations
 
@@ -38,7 +46,7 @@ LEVEL = "exploration"
 RULE = (
     "every point of the grids sizes x (max_h,max_w) x scale x max_stride x gray/RGB (chain), sizes x crop sizes x centroid "
     "positions (crop), sizes x 3 affine range settings x 81 forced parameter corners (affine), intensity/erase/mixup settings "
-    "(nomove), and Dataset class x source/is_rgb x (max_h,max_w) x scale x max_stride x crop size x anchor x augmentation corner x "
+    "(nomove), labelled extents x padding x stride x input scale x min size (cropsize), and Dataset class x source/is_rgb x (max_h,max_w) x scale x max_stride x crop size x anchor x augmentation corner x "
     "sample index (ds); each is one execution of the real function / __getitem__ judged by the blob-registration oracle "
     "(1.0 output px, both directions), exact-size and bottom/right-padding oracles.  A case is non-trivial when at least one "
     "keypoint was actually localised by the sub-pixel locator AND the geometry changed (resized, padded, cropped, or moved "
@@ -47,7 +55,8 @@ RULE = (
 ASSUMPTIONS = [
     "blobs are Gaussians with sigma >= 1.5 output px after all scaling (source sigma 2 / 3 / 4.5 chosen from the nominal total scale), "
     "keypoints >= max(4, 1.5 sigma) px inside the source frame, pairwise >= 4.5 sigma apart, at non-dyadic sub-pixel offsets",
-    "a keypoint is judged only if it lies >= 3 px inside the output; a blob only if it lies >= 4 px inside the output",
+    "a keypoint is judged only if it lies >= 3 px inside the output and >= 3 px away from any pixel without source content (exact zeros: "
+    "padding, outside of the frame in a crop / after a rotation, erased rectangle); a blob only if >= 4 px inside / away",
     "locator accuracy: measured <= 0.04 px against the analytic half-pixel model on all resize chains (see extra.max_dev_from_k4_model)",
     "kornia's random affine parameters are replaced by the 81 corners {low,mid,high}^4 of the configured ranges (monkeypatch of "
     "kornia.augmentation.random_generator.AffineGenerator.forward in the harness process; ranges still travel through sleap-nn's arguments); "
@@ -421,6 +430,13 @@ def exec_ds(c, env):
         cc = sample["centroid"].reshape(2).numpy().astype(np.float64)
         if not (abs(cc[0] - (cw - 1) / 2) <= 0.5 and abs(cc[1] - (ch - 1) / 2) <= 0.5):
             errors.append(f"returned centroid {cc.round(3).tolist()} is not at the centre of the {ch}x{cw} crop")
+        if aug is None:
+            # "crop about the centroid": the animal's own centroid keypoint (its anchor node, or the midpoint of its
+            # bounding box when anchor_part is None) must come back at the centre of the crop
+            ki = sample["instance"].reshape(-1, 2).numpy().astype(np.float64)
+            own = D.centroid_src([tuple(p) for p in ki], c.get("anchor", 0))
+            if not (abs(own[0] - (cw - 1) / 2) <= 0.5 and abs(own[1] - (ch - 1) / 2) <= 0.5):
+                errors.append(f"the crop is not centred on the animal: its centroid keypoint comes back at {[round(float(v), 3) for v in own]}, crop centre is {((cw - 1) / 2, (ch - 1) / 2)}")
     else:
         ch_, cw_ = (H if mh is None else mh), (W if mw is None else mw)
         for name, got, canvas in (("height", hh, ch_), ("width", ww, cw_)):
@@ -434,6 +450,18 @@ def exec_ds(c, env):
                 errors.append(f"padding: {rect}")
     g = R.to_gray(img)
     res = R.registration(g, kps, sig_out, both_ways=both)
+    if isinstance(aug, int) and res["fails"]:
+        # what went INTO the augmentation (the real object's cache entry): keypoints, and how well they sat on their
+        # blobs before the affine transform -- observations the K6 signature needs
+        entry = ds.cache[c["idx"]]
+        pimg, pk = (entry["instance_image"], entry["instance"]) if c["cls"] == "centered" else (entry["image"], entry["centroids" if c["cls"] == "centroid" else "instances"])
+        pre = pk.reshape(-1, 2).numpy().astype(np.float64)
+        e0 = {j: (ex, ey) for j, ex, ey in R.registration(R.to_gray(pimg), pre, sigma * tot, both_ways=False, margin=1.0)["errs"] if math.isfinite(ex)}
+        for fl in res["fails"]:
+            if "kp" in fl:
+                fl["pre"] = [float(v) for v in pre[fl["kp"]]]
+                fl["pre_err"] = [round(float(v), 4) for v in e0[fl["kp"]]] if fl["kp"] in e0 else None
+                fl["aug_hw"] = [int(pimg.shape[-2]), int(pimg.shape[-1])]
     # keypoints that are labelled must come back finite and vice versa
     if not np.array_equal(np.isnan(kps).any(axis=1), np.isnan(src).any(axis=1)):
         errors.append(f"NaN pattern of the returned keypoints {np.isnan(kps).any(axis=1).tolist()} != labelled pattern {np.isnan(src).any(axis=1).tolist()}")
@@ -451,8 +479,65 @@ def exec_ds(c, env):
     return _result(errors, _with_src(res, src), res["checked"], res["worst"], nt, _okey(img.shape, kps), extra)
 
 
+CROPSIZE_SETS = [
+    [[(1.0, 2.0), (11.5, 4.0), (NAN, NAN)]],  # extent 10.5 x 2
+    [[(3.0, 1.0), (5.25, 28.25), (4.0, 9.0)], [(1.0, 2.0), (11.5, 4.0), (NAN, NAN)]],  # taller animal: 2.25 x 27.25
+    [[(7.0, 7.0), (NAN, NAN), (23.0, 8.5)], [(NAN, NAN), (NAN, NAN), (NAN, NAN)]],  # missing node + an all-missing animal: 16 x 1.5
+    [[(9.5, 9.5), (NAN, NAN), (NAN, NAN)]],  # a single visible node: extent 0
+    [[(0.0, 0.0), (32.0, 0.0), (0.0, 31.75)]],  # extent exactly 32 (already a multiple of the strides)
+]
+
+
+def exec_cropsize(c):
+    import contextlib
+    import io
+
+    import sleap_io as sio
+
+    from props import _scenes as S
+    from sleap_nn.data.instance_cropping import find_instance_crop_size
+
+    sk = S.make_skeleton(D.K)
+    v = sio.Video(filename="c04-not-a-file.mp4", open_backend=False)
+    sets = CROPSIZE_SETS[c["set"]]
+    lfs = [sio.LabeledFrame(video=v, frame_idx=i, instances=[sio.Instance.from_numpy(np.array(p, dtype=np.float64), skeleton=sk)]) for i, p in enumerate(sets)]
+    labels = sio.Labels(labeled_frames=lfs, videos=[v], skeletons=[sk])
+    kw = {"padding": c["padding"], "maximum_stride": c["stride"], "input_scaling": c["scaling"], "min_crop_size": c["min"]}
+    with contextlib.redirect_stderr(io.StringIO()):
+        got = find_instance_crop_size(labels, **kw)
+    errors = []
+    after = [inst.numpy() for lf in labels for inst in lf.instances]
+    if not all(np.array_equal(a, np.array(p, dtype=np.float64), equal_nan=True) for a, p in zip(after, sets)):
+        errors.append("find_instance_crop_size changed the labelled keypoints")
+    ext = 0.0
+    for p in sets:
+        a = np.array(p, dtype=np.float64)
+        fin = a[~np.isnan(a).any(axis=1)]
+        if len(fin):
+            ext = max(ext, float(np.ptp(fin[:, 0])), float(np.ptp(fin[:, 1])))
+    need = ext * c["scaling"] + c["padding"]
+    m, mn = c["stride"], (c["min"] or 0)
+    user = mn > 0 and mn % m == 0  # documented: a user-specified size that already fits the stride is returned as is
+    if not isinstance(got, int) or got % m != 0:
+        errors.append(f"crop size {got!r} is not an integer multiple of max stride {m}")
+    elif user:
+        if got != mn:
+            errors.append(f"user-specified crop size {mn} (a multiple of {m}) came back as {got}")
+    else:
+        if got < need - 1e-9:
+            errors.append(f"crop size {got} does not cover the largest animal: extent {ext} x scale {c['scaling']} + padding {c['padding']} = {need}")
+        if got < mn:
+            errors.append(f"crop size {got} < min_crop_size {mn}")
+        if got - m >= max(need, mn) - 1e-9 and got > 0:
+            errors.append(f"crop size {got} is not the smallest multiple of {m} that covers max({need}, {mn})")
+    extra = {"crop_size": got, "needed": need, "user_size_smaller_than_animal": bool(user and mn < need)}
+    return _result(errors, [], 0, 0.0, need > 0 and not user, core.digest(["cropsize", got]), extra)
+
+
 def execute(c, env):
     k = c["kind"]
+    if k == "cropsize":
+        return exec_cropsize(c)
     if k == "chain":
         return exec_chain(c)
     if k == "crop":
@@ -479,57 +564,116 @@ def message(obs):
 # known finding K4: signature predicate
 
 
-def k4_halfpixel_resize(case, msg):
-    """K4: the resize stages multiply keypoints by the nominal factor about the centre of pixel (0,0) while
-    torchvision resamples about the pixel corner to an integer size (round() in apply_sizematcher, int() in
-    resize_image).  Content at source x therefore lands at (x+0.5)*s_act-0.5 per stage, the keypoint at x*s_nom.
-
-    The signature is *predictive*: the case must contain a resize stage and no affine augmentation, the message
-    must hold nothing but registration mismatches, and EVERY mismatching keypoint's measured error vector must be
-    within 0.15 px (per axis) of the vector this arithmetic predicts for its source coordinate; a blob without a
-    keypoint must be the partner of such an explained keypoint.  Anything else stays a violation.
-    """
-    if case.get("kind") not in ("chain", "ds") or isinstance(case.get("aug"), int) or case.get("aug") == "intensity":
-        return False
+def _detail(msg):
     if " DETAIL=" not in msg:
-        return False
+        return None
     try:
-        d = json.loads(msg.split(" DETAIL=", 1)[1])
+        return json.loads(msg.split(" DETAIL=", 1)[1])
     except ValueError:
-        return False
-    if d.get("errors") or not d.get("registration"):
-        return False
+        return None
+
+
+def _k4_prediction(case):
+    """-> f(x, y) = predicted (keypoint - content) vector of the resize stages for a source coordinate, or None if the
+    case has no resize stage.  Sizes follow the documented behaviour: round() in apply_sizematcher, int() in resize_image."""
     H, W = case["hw"]
     mh, mw = maxhw(case["maxhw"], H, W)
     s = float(case["scale"])
     r, eh, ew = R.fit_scale(H, W, mh, mw)
     if r == 1.0 and s == 1.0:
-        return False
-    th, tw = ((H, W) if (H, W) == (eh, ew) else (int(round(H * r)), int(round(W * r))))
-    H2, W2 = ((eh, ew) if s == 1.0 else (int(eh * s), int(ew * s)))
+        return None
+    th, tw = (H, W) if (H, W) == (eh, ew) else (int(round(H * r)), int(round(W * r)))
+    H2, W2 = (eh, ew) if s == 1.0 else (int(eh * s), int(ew * s))
     f = R.k4_model(H, W, mh, mw, s, [(th, tw), (eh, ew), (H2, W2)])
-    explained_blobs = []
+
+    def pred(x, y):
+        kx, ky, cx, cy = f(float(x), float(y))
+        return kx - cx, ky - cy
+
+    return pred
+
+
+def _explained(d, predict_for):
+    """Every kp_without_blob record is within 0.15 px per axis of predict_for(record); every blob_without_kp record is the
+    partner blob of such a keypoint."""
+    blobs = []
     for fail in d["registration"]:
         if fail.get("dir") != "kp_without_blob":
             continue
         err, src, at = fail.get("err"), fail.get("src"), fail.get("at")
-        if not err or err[0] is None or err[1] is None or not src or src[0] in (None, "NaN"):
+        if not err or err[0] is None or err[1] is None or not src or not all(isinstance(v, (int, float)) for v in src):
             return False
-        kx, ky, cx, cy = f(float(src[0]), float(src[1]))
-        if abs(err[0] - (kx - cx)) > 0.15 or abs(err[1] - (ky - cy)) > 0.15:
+        p = predict_for(fail)
+        if p is None or abs(err[0] - p[0]) > 0.15 or abs(err[1] - p[1]) > 0.15:
             return False
-        explained_blobs.append((at[0] - err[0], at[1] - err[1]))
-    if not explained_blobs:
+        blobs.append((at[0] - err[0], at[1] - err[1]))
+    if not blobs:
         return False
     for fail in d["registration"]:
         if fail.get("dir") == "blob_without_kp":
             b = fail["blob"]
-            if not any(math.hypot(b[0] - x, b[1] - y) <= 0.05 for x, y in explained_blobs):
+            if not any(math.hypot(b[0] - x, b[1] - y) <= 0.05 for x, y in blobs):
                 return False
     return True
 
 
-KNOWN_PREDICATES = {"k4_halfpixel_resize": k4_halfpixel_resize}
+def k4_halfpixel_resize(case, msg):
+    """K4: the resize stages multiply keypoints by the nominal factor about the centre of pixel (0,0) while
+    torchvision resamples about the pixel corner to an integer size (round() in apply_sizematcher, int() in
+    resize_image).  Content at source x therefore lands at (x+0.5)*s_act-0.5 per stage, the keypoint at x*s_nom.
+
+    The signature is *predictive*: the case must contain a resize stage and no augmentation, the message must hold
+    nothing but registration mismatches, and EVERY mismatching keypoint's measured error vector must be within
+    0.15 px (per axis) of the vector this arithmetic predicts for its source coordinate; a blob without a keypoint
+    must be the partner of such an explained keypoint.  Anything else stays a violation.
+    """
+    if case.get("kind") not in ("chain", "ds") or case.get("aug") is not None:
+        return False
+    d = _detail(msg)
+    if not d or d.get("errors") or not d.get("registration"):
+        return False
+    pred = _k4_prediction(case)
+    if pred is None:
+        return False
+    return _explained(d, lambda fail: pred(*fail["src"]))
+
+
+def k4_under_kornia_affine(case, msg):
+    """K6: a Dataset sample whose preprocessing carries a K4 offset and is then affine-augmented.  The keypoints follow
+    kornia's matrix M exactly; the image is resampled with S*M*S^-1 (RandomAffine's default align_corners=False, see
+    _c04_reg.affine_models), so content that sat at (pre - e0) before the augmentation ends at M_image(pre - e0) while the
+    keypoint ends at M(pre).  Predictive signature: the case has a resize stage AND a forced affine corner; the
+    pre-augmentation offset e0 measured on the dataset's cache entry is itself within 0.15 px of the K4 prediction; the
+    measured error is within 0.15 px per axis of M(pre) - M_image(pre - e0_K4); and neither ingredient alone explains a
+    > 1 px error (|e0_K4| <= 1 and the pure kornia discrepancy M(pre) - M_image(pre) <= 1)."""
+    if case.get("kind") != "ds" or not isinstance(case.get("aug"), int):
+        return False
+    d = _detail(msg)
+    if not d or d.get("errors") or not d.get("registration"):
+        return False
+    k4 = _k4_prediction(case)
+    if k4 is None:
+        return False
+    cfg = AFFINE_CFGS[case["aug"]]
+
+    def predict(fail):
+        pre, e0, hw = fail.get("pre"), fail.get("pre_err"), fail.get("aug_hw")
+        if not pre or not e0 or not hw:
+            return None
+        e0k = k4(*fail["src"])
+        if abs(e0[0] - e0k[0]) > 0.15 or abs(e0[1] - e0k[1]) > 0.15 or math.hypot(*e0k) > 1.0:
+            return None
+        M, Mi = R.affine_models(hw[0], hw[1], cfg, case["sel"])
+        p = np.array(pre, dtype=np.float64)
+        if float(np.hypot(*(M(p) - Mi(p)))) > 1.0:
+            return None
+        e = M(p) - Mi(p - np.array(e0k))
+        return float(e[0]), float(e[1])
+
+    return _explained(d, predict)
+
+
+KNOWN_PREDICATES = {"k4_halfpixel_resize": k4_halfpixel_resize, "k4_under_kornia_affine": k4_under_kornia_affine}
 
 
 # ---------------------------------------------------------------------------
@@ -568,6 +712,13 @@ def plan(tier):
                 cases.append({"kind": "nomove", "hw": list(hw), "aug": "erase", "sel": list(sel), "rgb": rgb, "shape": shape})
             for seed in (0, 1):
                 cases.append({"kind": "nomove", "hw": list(hw), "aug": "mixup", "seed": seed, "rgb": rgb, "shape": shape})
+
+    for si in range(len(CROPSIZE_SETS)):
+        for padding in (0, 5):
+            for m in (1, 2, 8, 16, 32):
+                for scaling in (1.0, 0.5, 1.5):
+                    for mn in (None, 16, 20, 100):
+                        cases.append({"kind": "cropsize", "set": si, "padding": padding, "stride": m, "scaling": scaling, "min": mn})
 
     # ---- datasets
     ds = []
@@ -649,6 +800,8 @@ def run_case(part, c, env):
     part.outcome(obs["outcome"])
     part.add(f"cases::{c['kind']}", 1)
     part.add("keypoints_localised", obs["checked"])
+    if obs.get("user_size_smaller_than_animal"):
+        part.add("observation::user_crop_size_smaller_than_largest_animal", 1)
     if not obs["registration"]:
         part.maxi(f"max_err_px::{c['kind']}", round(float(obs["worst"]), 4))
     if "dev_from_k4_model" in obs:
@@ -736,6 +889,10 @@ def replay(case):
     env = new_env()
     try:
         obs = execute(case, env)
+    except Exception as e:  # the code under test raised: that is the violation
+        import traceback
+
+        return {"raised": f"{type(e).__name__}: {e}", "traceback_tail": traceback.format_exc().strip().splitlines()[-4:], "known_signatures": {}, "violates": True}
     finally:
         drop_env(env)
     bad = bool(obs["errors"] or obs["registration"])
